@@ -2,7 +2,7 @@
      q_shared    = memo keyed by class only, shared by both walks      (before fix 1341207, F-LOOKUP-MEMO-CROSS)
      q_dt_only   = _field_is_instance looked only at .data_type        (before fix d35e4ad, F-ATTR-TESTS-CONST-FALSE)
      q_unchecked = additional_globals checked against reserved names   (before fix 6db3613, F-ENV-GLOBALS) *)
-From Verif Require Import Str Lookup LookupThm LookupSortThm LookupEnv LookupEnvThm Gen_Lookup LookupInst LookupInstThm.
+From Verif Require Import Str Lookup LookupThm LookupSortThm LookupEnv LookupEnvThm Gen_Lookup LookupInst LookupInstThm LookupComposeThm.
 Import ListNotations.
 Open Scope N_scope.
 
@@ -115,4 +115,20 @@ Theorem C16_user_global_shadows_builtin_partial :
     str_in n defaults = true -> str_in n written = false -> str_in n lang = false -> dget g n = Some OBuiltin.
 Proof. exact builtin_globals_protected_partial. Qed.
 Print Assumptions C16_user_global_shadows_builtin_partial.
+
+
+(* ---- before fix af716bd (type_to_template indexed the templates of sub-directories; F-LOOKUP-SUBDIR-NAME) ---- *)
+(* (1) refuted (finding F-LOOKUP-SUBDIR-NAME) AS LONG AS type_to_template indexes the templates of sub-directories -- a fact
+   regenerated from /repo (g_index_top_level_only = false; p_flatb is `g_index_top_level_only || ...`): user dir
+   {sub/StructureType.j2, CompositeType.j2}, package {StructureType.j2}: type_to_template chooses sub/StructureType.j2, .name drops
+   the directory; FIND_ALL renders the PACKAGE's StructureType.j2, FIND_FIRST raises TemplateNotFound; the property designates the
+   user's CompositeType.j2 *)
+Theorem C16_rendered_file_refuted_subdir : g_index_top_level_only = false ->
+  p_lookup_seq false FIND_ALL (Some [[f_sub_struct; f_comp]]) (Some [f_struct]) [g_cls_StructureType] = [Some f_sub_struct] /\
+  p_rendered_seq false FIND_ALL (Some [[f_sub_struct; f_comp]]) (Some [f_struct]) [g_cls_StructureType] = [Rendered OPkg f_struct] /\
+  p_rendered_seq false FIND_FIRST (Some [[f_sub_struct; f_comp]]) (Some [f_struct]) [g_cls_StructureType] = [NotFound f_struct] /\
+  p_spec_rendered FIND_FIRST (Some [[f_sub_struct; f_comp]]) (Some [f_struct]) g_cls_StructureType = Rendered (OUserDir 0) f_comp /\
+  p_flatb FIND_FIRST (Some [[f_sub_struct; f_comp]]) (Some [f_struct]) = false.
+Proof. exact subdir_name_refuted. Qed.
+Print Assumptions C16_rendered_file_refuted_subdir.
 
